@@ -49,6 +49,10 @@ pub struct PuppetSpec {
     /// a source that reacts to its first Pull (merge members only): inside that call the late
     /// sibling j greets - two members backed by one lazily opened connection
     pub on_pull: Option<usize>,
+    /// PullDeferred only: a source that was busy and then catches up - at its first driver step it
+    /// serves everything it owes in a loop, and from then on it serves what it owes from inside
+    /// every Pull it receives (also a Pull that arrives while it is serving)
+    pub backlog: bool,
 }
 
 #[derive(Debug)]
@@ -71,6 +75,8 @@ pub struct SubState {
     pub demand: usize,
     pub pos: usize,
     pub pulls: usize,
+    /// a `backlog` source that has started to catch up
+    pub eager: bool,
     /// step in which the error was emitted and whether the output was live then (C05)
     pub err_step: u32,
 }
@@ -239,7 +245,14 @@ impl<T: Clone + Send + Sync + 'static> Puppet<T> {
                             }
                         },
                         Mode::PullDeferred => {
-                            sub.st.lock().unwrap().demand += 1;
+                            let eager = {
+                                let mut st = sub.st.lock().unwrap();
+                                st.demand += 1;
+                                st.eager
+                            };
+                            if eager {
+                                self.serve_owed(sub);
+                            }
                         },
                     }
                 }
@@ -359,6 +372,22 @@ impl<T: Clone + Send + Sync + 'static> Puppet<T> {
         true
     }
 
+    /// a catching-up source (`backlog`): one answer per Pull it still owes, until it owes nothing
+    fn serve_owed(self: &Arc<Self>, sub: &Arc<Sub<T>>) {
+        loop {
+            {
+                let mut st = sub.st.lock().unwrap();
+                if st.demand == 0 || st.ended || st.stopped {
+                    return;
+                }
+                st.demand -= 1;
+            }
+            if !self.emit_next(sub) {
+                return;
+            }
+        }
+    }
+
     /// Driver action: a Listen puppet emits one item; a PullDeferred puppet answers one Pull.
     pub fn step(self: &Arc<Self>, k: usize) -> bool {
         let sub = match self.sub(k) {
@@ -367,6 +396,17 @@ impl<T: Clone + Send + Sync + 'static> Puppet<T> {
         };
         match self.spec.mode {
             Mode::Listen => self.emit_next(&sub),
+            Mode::PullDeferred if self.spec.backlog => {
+                {
+                    let mut st = sub.st.lock().unwrap();
+                    if st.demand == 0 {
+                        return false;
+                    }
+                    st.eager = true;
+                }
+                self.serve_owed(&sub);
+                true
+            },
             Mode::PullDeferred => {
                 {
                     let mut st = sub.st.lock().unwrap();
@@ -416,6 +456,8 @@ pub trait PuppetCtl: Send + Sync {
     fn id(&self) -> usize;
     fn mode(&self) -> Mode;
     fn late(&self) -> bool;
+    /// a `backlog` source that has not started to catch up
+    fn building_backlog(&self, k: usize) -> bool;
     fn fin(&self) -> Fin;
     fn n_items(&self) -> usize;
     fn n_subs(&self) -> usize;
@@ -450,6 +492,9 @@ impl<T: Clone + Send + Sync + 'static> PuppetCtl for Arc<Puppet<T>> {
     }
     fn late(&self) -> bool {
         self.spec.late
+    }
+    fn building_backlog(&self, k: usize) -> bool {
+        self.spec.backlog && self.sub(k).map(|s| { let st = s.st.lock().unwrap(); !st.eager && st.demand < 3 }).unwrap_or(false)
     }
     fn fin(&self) -> Fin {
         self.spec.fin
